@@ -140,8 +140,7 @@ Definition is_blank_item (c : str) : bool := match c with [] => true | _ => fals
 Fixpoint drop_blank_items (l : list str) : list str :=
   match l with c :: r => if is_blank_item c then drop_blank_items r else l | [] => [] end.
 Definition own_line (tr : list str) : list str := match tr with [] => [[]] | _ => tr end.
-Definition trim_first (tr : list str) : list str :=
-  match tr with c :: r => own_line (c :: drop_blank_items r) | [] => [[]] end.
+Definition trim_first (tr : list str) : list str := own_line (drop_blank_items tr).
 Definition trim_last (tr : list str) : list str := own_line (rev (drop_blank_items (rev tr))).
 
 Fixpoint norm_middle (l : list (list str)) : list (list str) :=
